@@ -64,6 +64,7 @@ impl<Error: Send + 'static> DecodeScheduler<Error> {
 		};
 		let start_position = settings.start_position.into_samples(sample_rate);
 		let decoder_current_frame_index = decoder.seek(start_position)?;
+		verif_hook!("dec.new", std::sync::Arc::as_ptr(&shared) as usize, 0);
 		let scheduler = Self {
 			decoder,
 			sample_rate,
@@ -100,6 +101,7 @@ impl<Error: Send + 'static> DecodeScheduler<Error> {
 					NextStep::End => break,
 				},
 				Err(error) => {
+					verif_hook!("dec.error", std::sync::Arc::as_ptr(&self.shared) as usize, 0);
 					self.error_producer.push(error).ok();
 					self.shared.encountered_error.store(true, Ordering::SeqCst);
 				}
@@ -108,12 +110,15 @@ impl<Error: Send + 'static> DecodeScheduler<Error> {
 	}
 
 	pub fn run(&mut self) -> Result<NextStep, Error> {
+		verif_hook!("dec.step", std::sync::Arc::as_ptr(&self.shared) as usize, 0);
 		// if the sound was manually stopped, end the thread
 		if self.shared.state() == PlaybackState::Stopped {
+			verif_hook!("dec.end", std::sync::Arc::as_ptr(&self.shared) as usize, 0);
 			return Ok(NextStep::End);
 		}
 		// if the frame ringbuffer is full, sleep for a bit
 		if self.frame_producer.is_full() {
+			verif_hook!("dec.wait", std::sync::Arc::as_ptr(&self.shared) as usize, 0);
 			return Ok(NextStep::Wait);
 		}
 		// check for commands
@@ -137,6 +142,7 @@ impl<Error: Send + 'static> DecodeScheduler<Error> {
 		self.transport.increment_position(self.num_frames);
 		if !self.transport.playing {
 			self.shared.reached_end.store(true, Ordering::SeqCst);
+			verif_hook!("dec.end", std::sync::Arc::as_ptr(&self.shared) as usize, 1);
 			return Ok(NextStep::End);
 		}
 		Ok(NextStep::Continue)
